@@ -357,6 +357,8 @@ def prestates(out, rng, extra_random):
         ("empty", {}),
         ("other", {"notes.txt": "n\n"}),
         ("exists", {out: OLD}),
+        ("exists-empty", {out: ""}),
+        ("exists-1byte", {out: "x", "#%s.1#" % out: ""}),
         ("exists+bk1", {out: OLD, "#%s.1#" % out: "B1\n"}),
         ("exists+gap", {out: OLD, "#%s.2#" % out: "B2\n", "notes.txt": "n\n"}),
         ("exists+bk1-3", {out: OLD, "#%s.1#" % out: "B1\n", "#%s.2#" % out: "B2\n", "#%s.3#" % out: "B3\n"}),
@@ -385,13 +387,43 @@ def reset_writer(tmpdir):
     return writer
 
 
+def other_device_dir(reference):
+    """a writable directory on another filesystem than `reference`, or None"""
+    try:
+        dev = os.stat(reference).st_dev
+    except OSError:
+        return None
+    for cand in ("/dev/shm", "/run/shm", "/var/tmp", os.path.expanduser("~"), "/tmp"):
+        try:
+            if os.path.isdir(cand) and os.access(cand, os.W_OK) and os.stat(cand).st_dev != dev:
+                return cand
+        except OSError:
+            continue
+    return None
+
+
+def install_exdev(session):
+    """simulate a temporary directory on another filesystem than the output directory: os.rename fails with
+    EXDEV, so shutil.move falls back to copy + unlink (what happens with $TMPDIR on tmpfs and the output on
+    a disk).  Only used when no second filesystem is available."""
+    import errno
+    orig = os.rename
+
+    def rename(src, dst, *args, **kwargs):
+        raise OSError(errno.EXDEV, "Invalid cross-device link (simulated)", str(src))
+    session._set(os, "rename", rename)  # pylint: disable=protected-access
+    return orig
+
+
 def execute(prog, call, indir, outdir, out, table, crash_label=None, crash_write=None, relative=False,
-            reset=True, tmpdir=None):
+            reset=True, tmpdir=None, xdev=False):
     """run the real program once; returns (session, error-or-None)"""
     import numpy as np
     if reset:
         reset_writer(tmpdir)
     session = Session(prog, crash_label, crash_write)
+    if xdev and tmpdir is not None and os.stat(tmpdir).st_dev == os.stat(outdir).st_dev:
+        install_exdev(session)
     np.random.seed(20)
     random.seed(20)
     cwd = os.getcwd()
@@ -549,14 +581,23 @@ def before_writing(plan, crash):
     return crash <= kinds.index("openDirect")
 
 
-def run_one(ctx, plan, table, indir, scratch, state_name, files, point, relative=False):
+def run_one(ctx, plan, table, indir, scratch, state_name, files, point, relative=False, xdev=False):
     crash, label, wnum = point
     outdir = tempfile.mkdtemp(dir=scratch)
     tmpdir = tempfile.mkdtemp(dir=scratch)
+    if xdev:
+        # the writer's temporary files on another filesystem than the output directory: a real one when the
+        # machine has one, else os.rename is made to fail with EXDEV (see install_exdev)
+        other = other_device_dir(outdir)
+        if other is not None:
+            tmpdir = tempfile.mkdtemp(prefix="c20_xdev_", dir=other)
+            ctx.tally(cross_device="real:%s" % other)
+        else:
+            ctx.tally(cross_device="simulated EXDEV")
     populate(outdir, files)
     before = listing(outdir)
     session, error = execute(plan["prog"], plan["call"], indir, outdir, plan["out"], table,
-                             crash_label=label, crash_write=wnum, relative=relative, tmpdir=tmpdir)
+                             crash_label=label, crash_write=wnum, relative=relative, tmpdir=tmpdir, xdev=xdev)
     after = listing(outdir)
     tmps = []
     for name in sorted(os.listdir(tmpdir)):
@@ -565,8 +606,10 @@ def run_one(ctx, plan, table, indir, scratch, state_name, files, point, relative
     from vermouth.file_writer import DeferredFileWriter
     queue = len(DeferredFileWriter().open_files)
     shutil.rmtree(outdir, ignore_errors=True)
+    if xdev:
+        shutil.rmtree(tmpdir, ignore_errors=True)
     replay = dict(program=plan["prog"], variant=plan["vname"], crash=crash, crash_label=label, crash_write=wnum,
-                  state=state_name, files=files, relative=relative)
+                  state=state_name, files=files, relative=relative, xdev=xdev)
     impl = dict(fs=canon_fs(after), tmp=sorted(tmps), queue=queue,
                 crashed=session.crashed, error=error)
     request = dict(op="runs", fs=before,
@@ -615,7 +658,7 @@ def judge(ctx, case, answers):
     informative = case["state"] in ("exists+bk1", "exists+gap") and not replay["relative"] and \
         (crash is None or plan["rows"][crash][0] in ("writeDeferred", "flush", "openDirect")) and \
         plan["vname"] in ("seq", "plain")
-    ctx.case((plan["prog"], plan["vname"], crash, case["state"], replay["relative"]),
+    ctx.case((plan["prog"], plan["vname"], crash, case["state"], replay["relative"], replay.get("xdev", False)),
              sample=None if not informative or ctx.rng.random() < 0.6 else dict(input=dict(program=plan["prog"], variant=plan["vname"], crash=crash,
                                     stage=plan["rows"][crash][1] if crash is not None else None,
                                     state=case["state"]),
@@ -693,9 +736,9 @@ class Bench:
             if plan is not None:
                 self.plans.append(plan)
 
-    def one(self, plan, sname, files, point, relative=False):
+    def one(self, plan, sname, files, point, relative=False, xdev=False):
         return run_one(self.ctx, plan, self.table[plan["prog"]], self.indir, self.scratch, sname, files, point,
-                       relative=relative)
+                       relative=relative, xdev=xdev)
 
     def judge_all(self, cases):
         answers = self.ctx.driver.ask([r for c in cases for r in c["reqs"]])
@@ -718,8 +761,14 @@ def run_plans(ctx):
                 for point in points:
                     cases.append(bench.one(plan, sname, files, point))
             # relative output path with the output directory as working directory
+            by_name = dict(states)
             for point in points:
-                cases.append(bench.one(plan, "exists+bk1", dict(states[3][1]), point, relative=True))
+                cases.append(bench.one(plan, "exists+bk1", dict(by_name["exists+bk1"]), point, relative=True))
+            # temporary directory and output directory on different filesystems (move = copy + unlink)
+            if any(k == "flush" for k, _ in plan["rows"]):
+                for sname in ("empty", "exists", "exists+bk1"):
+                    for point in points:
+                        cases.append(bench.one(plan, sname, dict(by_name[sname]), point, xdev=True))
         bench.judge_all(cases)
         stale_cases(ctx, bench.plans, bench.table, bench.indir, bench.scratch)
     finally:
@@ -765,7 +814,7 @@ def replay(ctx, data):
                 continue        # the reference run itself (re-executed by Bench)
             point = (item.get("crash"), item.get("crash_label"), item.get("crash_write"))
             cases.append(bench.one(plan, item.get("state", "replay"), item["files"], point,
-                                   relative=item.get("relative", False)))
+                                   relative=item.get("relative", False), xdev=item.get("xdev", False)))
         bench.judge_all(cases)
         if stale:
             stale_cases(ctx, bench.plans, bench.table, bench.indir, bench.scratch)
